@@ -149,6 +149,10 @@ func Parse(s string) (*DPoP, error) {
 	if jwkIsPrivateKey(headers.JWK()) {
 		return nil, fmt.Errorf("%w: invalid jwk header", ErrInvalidDPoP)
 	}
+	// the JWX library only checks that the algorithm's family fits the key type, not that an ECDSA algorithm fits the key's curve
+	if !jwx.AlgorithmFitsKey(headers.Algorithm(), headers.JWK()) {
+		return nil, fmt.Errorf("%w: alg does not fit jwk: %s", ErrInvalidDPoP, headers.Algorithm())
+	}
 	token, err := jwt.ParseString(s, jwt.WithKey(headers.Algorithm(), headers.JWK()))
 	if err != nil {
 		return nil, errors.Join(ErrInvalidDPoP, err)
